@@ -41,6 +41,10 @@ fn values(n: usize, rng: &mut impl RngCore) -> Vec<(&'static str, BlsScalar)> {
     let small = U320::from_scalar(&rand_scalar(rng)).low_bits(cap.bits() - 1);
     v.push(("v+r-fits-255-bits", small.to_scalar()));
     v.push(("6", BlsScalar::from(6u64)));
+    // field fractions (small after multiplication by 2 / 2^j, huge as integers)
+    let k = BlsScalar::from(1 + 2 * (rng.next_u64() % 8));
+    v.push(("k/2", k * BlsScalar::from(2u64).invert().unwrap()));
+    v.push(("k/2^j", k * pow2(1 + rng.next_u32() % 16).invert().unwrap()));
     v.push(("below-2^N-random", U320::from_scalar(&rand_scalar(rng)).low_bits(n.min(254)).to_scalar()));
     v
 }
